@@ -290,6 +290,9 @@ Proof.
   destruct s1; [exact A1|]. eapply frame_trans; [exact A1|apply IH].
 Qed.
 
+Lemma frame_key_slot n c : frame c (key_slot n c).
+Proof. apply frame_eq. unfold key_slot. destruct (loopKey n); reflexivity. Qed.
+
 Lemma rloop_frame n c : covers n -> frame c (rloop fr n c).
 Proof.
   intro Hn. unfold rloop.
@@ -299,11 +302,12 @@ Proof.
   destruct i; try exact H0; try (apply frame_eq; reflexivity).
   - destruct v; try exact H0.
     destruct (jget j rest) as [| | | | |l|l]; try exact H0; try (apply frame_eq; reflexivity);
-      (destruct l; [apply frame_eq; reflexivity|eapply frame_trans; [exact H0|apply vloop_frame; exact Hn]]).
+      (destruct l; [apply frame_eq; reflexivity|eapply frame_trans; [eapply frame_trans; [exact H0|apply vloop_frame; exact Hn]|apply frame_key_slot]]).
   - destruct v; try exact H0.
     destruct (nth_error (store (w_cerr c None)) oid) as [ob|]; [|exact H0].
     destruct (oloop ofuel ob (prefix ++ rest)) as [[sp cnt]|]; [|exact H0].
-    eapply frame_trans; [exact H0|apply oloop_run_frame; exact Hn].
+    assert (H3 : frame c (oloop_run fr n oid sp cnt 0 (w_cerr c None) false)) by (eapply frame_trans; [exact H0|apply oloop_run_frame; exact Hn]).
+    destruct cnt; [exact H3|eapply frame_trans; [exact H3|apply frame_key_slot]].
 Qed.
 
 Lemma branch_frame n c ok e0 : covers n -> frame c (fst (branch fr n c ok e0)).
